@@ -9,6 +9,7 @@ CONSTANTS
  DelayBeforeStart = TRUE
  CancelInPlace = TRUE
  ForgetDiscarded = TRUE
+ TolerantCompletion = TRUE
  DropLateBoxes = FALSE
  Record = FALSE
 INVARIANT NoErr
